@@ -129,6 +129,8 @@ def c06_events(run, d):
             continue
         base = (sp & ~(PAGE - 1)) - 16 * PAGE
         rs, rl = th["stack_start"], th["stack_size"]
+        if rl == 0 and d["opts"].get("skip") and d["writer"].get("principal") is not None:
+            continue        # left out by the skip-if-unreferenced rule: C20 (and C19 for an address that resolves to nothing) judge that
         if rl > 0 and not (base <= rs < base + (1 << 30)):
             # a region nowhere near the stack pointer: certainly not containing it
             rs_rel = 0
@@ -140,6 +142,20 @@ def c06_events(run, d):
                     "sp": sp - base, "maps": _rel_maps(maps, base), "regStart": rs_rel, "regLen": rl,
                     "mismatchFromSp": -1 if (c is None or running or d["opts"]["sanitize"]) else c["mismatch"], "estimateKnown": True})
     return evs
+
+
+def readable_len(maps, addr, n):
+    """How many of the n bytes at addr can be read by a tracer: up to the end of the run of contiguous mappings containing addr
+    (inaccessible pages included: /proc/<pid>/mem and PEEKDATA read through them; only unmapped addresses stop a read)."""
+    end = addr
+    while True:
+        m = find_map(maps, end)
+        if m is None:
+            break
+        end = m["e"]
+        if end >= addr + n:
+            return n
+    return max(0, min(n, end - addr))
 
 
 def _words(hexs, start):
